@@ -116,6 +116,16 @@ def run_check(ctx):
     base = base[0]
     base_path = os.path.join(ctx.tmp, "base.in")
     open(base_path, "wb").write(bytes(base["base"]))
+    ctx.assumptions += [
+        "strings contain no NUL byte (the C query interface cannot show one)",
+        "the types of a file share no true name with an already loaded type (merging of shared types is C13)",
+        "identifier mismatch: the error flag is demanded; the file may be merged completely (what the code does) or not at all",
+        "a prefix that lacks only trailing white space may be flagged-and-ignored or loaded completely",
+        "index numbers are compared after remap_indices (the spec models it); byte identity of load + write is demanded of "
+        "canonical files (written with -oc, or by the spec in layout 'canon') and of the spec's writer output in general",
+        "trusted: TLC, the ctypes driver, harness/idb_write.cxx (12 lines), the projection Db.query in vf/checks/_idbq.py "
+        "driven by the table QF of IdbQuery.tla",
+    ]
     ctx.cov["exhaustive"] = True
     ctx.cov["rule"] = ("TLC enumerates every database of <= MaxRecs records over 6 record kinds x 4 field patterns x the "
                        "adversarial strings, each written in the minor formats its content distinguishes, with every header "
